@@ -26,7 +26,7 @@ LEVEL = "fault_enumeration"
 MODES = ["O0"]
 BATCH = 2
 PLAN_WATCHDOG_S = 1800
-TIERS = {"quick": {"runs": 400, "wall": 55}, "thorough": {"runs": 1600, "wall": 1500}}
+TIERS = {"quick": {"runs": 600, "wall": 55}, "thorough": {"runs": 1600, "wall": 1500}}
 RULE = ("plan = seeded PEL directory (or single file) + buffer sizes + option set; every I/O event of the "
         "fault-free reference execution is a fault site and one execution is run per (site, applicable fault "
         "kind) [runs of buffered non-draining writes: first, last and seeded others in reduced mode, every "
